@@ -1478,3 +1478,5 @@ def _run(world: World, plan):
     sig.sort()
     return common.finish(world, nontrivial, [sig, plan['net'].get('coalesce'), bool(plan.get('dist_obf')),
                                              sorted((e['rec']['what'], e['rec']['port']) for e in bf)])
+
+INFO['rule'] += ' Round-5 additions: a well-formed first frame on a fresh connection arriving in two parts with a pause of 0.5..45 s (plan field slowfirst); a distributed child that never reads while ServerSearchRequest frames of 30..60 kB are relayed to it, then its connection ends (child_stall).'
